@@ -2,7 +2,7 @@
    two flags are regenerated from src/setsketcher.rs; X stands for b^(jac/2). *)
 From Coq Require Import Reals.
 From Coq Require Import List.
-From PMH Require Import Gen.SetSketchFormulas Proofs.SetFormulas Gen.SetSketchLaw Proofs.SetLaw Model.Estimators Gen.EstIdx Proofs.Estimators.
+From PMH Require Import Gen.SetSketchFormulas Proofs.SetFormulas Gen.SetSketchLaw Proofs.SetLaw Gen.SetFormulasSrc Proofs.SetFormulasSrc Model.Estimators Gen.EstIdx Proofs.Estimators.
 Open Scope R_scope.
 
 (* the function asserts nothing about the order of its results: it returns for every jac <= 1 *)
@@ -47,6 +47,11 @@ Theorem C07_estimator_is_match_fraction : forall a b, length a = length b ->
   est_run est_jaccard_get_jaccard_index_estimate a b = EstOk (count_eq a b) (length a).
 Proof. exact (fun a b H => est_exact est_jaccard_get_jaccard_index_estimate a b (eq_refl true) H). Qed.
 
+(* the two bounds as the source text of get_jaccard_bounds writes them are the formulas the theorems above are stated on *)
+Theorem C07_source_bounds_are_the_proved_bounds : forall b X, 1 < b ->
+  jb_sup_src b X = jb_sup b X /\ jb_binf_src b X = jb_binf b X.
+Proof. intros b X Hb. exact (conj (jb_sup_src_ok b X Hb) (jb_binf_src_ok b X Hb)). Qed.
+
 Print Assumptions C07_no_order_assertion.
 Print Assumptions C07_bounds_ordered.
 Print Assumptions C07_bounds_gap.
@@ -56,3 +61,4 @@ Print Assumptions C07_increment_is_renyi_spacing.
 Print Assumptions C07_register_threshold.
 Print Assumptions C07_register_antitone.
 Print Assumptions C07_estimator_is_match_fraction.
+Print Assumptions C07_source_bounds_are_the_proved_bounds.
